@@ -215,16 +215,20 @@ fn derive_include_shape(
     IncludeDef {
         pos,
         path: _path,
-        typ: _typ,
+        typ,
     }: &IncludeDef,
 ) -> Shape {
-    Shape::Narrowed(NarrowedShape::new_with_pos(
-        vec![
-            Shape::Tuple(PositionedItem::new(vec![], pos.clone())),
-            Shape::List(NarrowedShape::new_with_pos(vec![], pos.clone())),
-        ],
-        pos.clone(),
-    ))
+    match typ.fragment.as_ref() {
+        // The text of the file, as it is or encoded.
+        "str" | "b64" | "b64urlsafe" => Shape::Str(pos.clone()),
+        _ => Shape::Narrowed(NarrowedShape::new_with_pos(
+            vec![
+                Shape::Tuple(PositionedItem::new(vec![], pos.clone())),
+                Shape::List(NarrowedShape::new_with_pos(vec![], pos.clone())),
+            ],
+            pos.clone(),
+        )),
+    }
 }
 
 /// True if a value of this shape can be a boolean.
